@@ -64,7 +64,8 @@ var datePool = []string{"2020-01-01T00:00:07.1234Z", "2020-01-01T00:00:07.1238Z"
 	"0001-01-01T00:00:00Z", "9999-12-31T23:59:59.999999999Z", "2020-01-01t00:00:00z", "2020-01-01T00:00:00.5-07:30",
 	"2020-13-01T00:00:00Z", "2020-01-01", "2020-01-01T00:00:00", "2020-02-30T00:00:00Z", "2020-1-01T00:00:00Z",
 	"2020-01-01T24:00:00Z", "2020-01-01T00:00:60Z", "not a date", "1970-01-01T00:00:00Z", "2262-04-12T00:00:00Z",
-	"0000-01-01T00:00:00Z", "2020-01-01T00:00:00+99:00", "2020-01-01T0:00:00Z", "2021-06-\x0009T18:53:52Z", "\x00", "2020-01-01T00:00:00Z\x00", "2020-01-01T00:00:00-03:30", "2020-01-01T00:00:00-00:45"}
+	"0000-01-01T00:00:00Z", "2020-01-01T00:00:00+99:00", "2020-01-01T0:00:00Z", "2021-06-\x0009T18:53:52Z", "\x00", "2020-01-01T00:00:00Z\x00", "2020-01-01T00:00:00-03:30", "2020-01-01T00:00:00-00:45",
+	"2020-01-01T00:00:00Zjunk", "2020-01-01T00:00:00+01:00\x00junk", "2020-02-31T00:00:00Z", "2020-01-01T00:00:00.5Zx", "2019-02-29T00:00:00Z", "2020-02-29T00:00:00Z", "2020-04-31T12:00:00+01:00"}
 var semverPool = []string{"1.0.0", "1.0", "1", "1.0.0-rc.1", "1.0.0-rc.2", "1.0.0-rc.10", "1.0.0+build", "2.0.0", "01.0.0",
 	"1.0.0-rc.1.x", "1.0.0-alpha", "1.0.0-1", "0.9.9", "1.0.1", "1.1", "x", "1.0.0-", "1.0.0-rc..1", "1.0.0-0rc", "1.0.0-00",
 	"10.2.3", "1.0.0-rc.1+b.7"}
